@@ -83,8 +83,8 @@ Proof.
 Qed.
 
 (* a method of the implementation and its list-model counterpart *)
-Definition tcorr (ti : iter -> ires) (ts : lseq -> tres) : Prop :=
-  forall h it l, wfH h -> Rit h l it ->
+Definition tcorr (h : heap) (ti : iter -> ires) (ts : lseq -> tres) : Prop :=
+  forall it l, wfH h -> Rit h l it ->
   match ti it, ts (fin l) with
   | IOk it', TOk s' => exists l', s' = fin l' /\ Rit h l' it'
   | IDead, TDead => True
@@ -92,7 +92,7 @@ Definition tcorr (ti : iter -> ires) (ts : lseq -> tres) : Prop :=
   | _, _ => False
   end.
 
-Lemma iapply_sim : forall ti ts h os st i ist' ob, tcorr ti ts -> R (IS h os) st ->
+Lemma iapply_sim : forall ti ts h os st i ist' ob, tcorr h ti ts -> R (IS h os) st ->
   iapply (IS h os) i ti = (ist', ob) ->
   exists st', apply_t st i ts = (st', ob) /\ R ist' st'.
 Proof.
@@ -100,7 +100,7 @@ Proof.
   assert (Hh : wfH h) by apply HR. pose proof (R_length _ _ _ HR) as Hlen.
   unfold iapply in Hi. unfold apply_t.
   destruct (nth_error os i) as [[it|its|]|], (nth_error st i) as [[s|s u|]|]; cbn in Hl; try contradiction.
-  - destruct Hl as [l [-> Hr]]. specialize (Ht h it l Hh Hr).
+  - destruct Hl as [l [-> Hr]]. specialize (Ht it l Hh Hr).
     destruct (ti it) as [it'| |e], (ts (fin l)) as [s'| |e']; try contradiction; inversion Hi; subst; clear Hi.
     + destruct Ht as [l' [-> Hr']]. eexists. split; [reflexivity|].
       apply (R_pres_set h h); [exact HR|apply pres_refl; exact Hh|]. cbn. eauto.
@@ -110,7 +110,7 @@ Proof.
   - destruct Hl as [l [-> [-> HF]]]. destruct (pop_last its) as [[its' it]|] eqn:Ep.
     + apply pop_last_some in Ep. subst its. rewrite app_length. cbn [List.length]. rewrite Nat.add_1_r.
       apply Forall_app in HF. destruct HF as [HF' Hit]. inversion Hit as [|? ? Hr _]; subst.
-      specialize (Ht h it l Hh Hr).
+      specialize (Ht it l Hh Hr).
       assert (HR' : R (IS h (set_nth i (XHub its') os)) (set_nth i (EHub (fin l) (List.length its')) st)).
       { apply (R_pres_set h h); [exact HR|apply pres_refl; exact Hh|]. cbn. eauto. }
       destruct (ti it) as [it'| |e], (ts (fin l)) as [s'| |e']; try contradiction; inversion Hi; subst; clear Hi.
@@ -127,36 +127,36 @@ Proof.
   - inversion Hi; subst. eexists. split; [reflexivity|exact HR].
 Qed.
 
-Lemma tcorr_skip : forall c, tcorr (skip_i c) (skip_t c).
+Lemma tcorr_skip : forall c h, tcorr h (skip_i c) (skip_t c).
 Proof.
   intros c h it l Hh [[Hw Hf] Ha]. unfold skip_i, skip_t. destruct (round_count c) as [z|e]; [|exact I].
   rewrite ldrop_fin. eexists. split; [reflexivity|]. split; [split; assumption|].
   cbn [absI]. rewrite Ha. reflexivity.
 Qed.
 
-Lemma tcorr_limit : forall c, tcorr (limit_i c) (limit_t c).
+Lemma tcorr_limit : forall c h, tcorr h (limit_i c) (limit_t c).
 Proof.
   intros c h it l Hh [[Hw Hf] Ha]. unfold limit_i, limit_t. destruct (round_count c) as [z|e]; [|reflexivity].
   rewrite llimit_fin. eexists. split; [reflexivity|]. split; [split; assumption|].
   cbn [absI]. rewrite Ha. reflexivity.
 Qed.
 
-Lemma tcorr_append : forall l2,
-  tcorr (fun it => IOk (IChain it (src_iter (PFin l2)))) (fun s => TOk (lappend s (pool_seq (PFin l2)))).
+Lemma tcorr_append : forall l2 h,
+  tcorr h (fun it => IOk (IChain it (src_iter (PFin l2)))) (fun s => TOk (lappend s (pool_seq (PFin l2)))).
 Proof.
   intros l2 h it l Hh [[Hw Hf] Ha]. cbn [src_iter pool_seq]. rewrite lappend_fin.
   eexists. split; [reflexivity|]. split; [split; cbn; auto|].
   cbn [absI]. rewrite Ha. reflexivity.
 Qed.
 
-Lemma tcorr_map : forall f, tcorr (fun it => IOk (IMap f it)) (fun s => TOk (lmap (ef f) s)).
+Lemma tcorr_map : forall f h, tcorr h (fun it => IOk (IMap f it)) (fun s => TOk (lmap (ef f) s)).
 Proof.
   intros f h it l Hh [[Hw Hf] Ha]. rewrite lmap_fin.
   eexists. split; [reflexivity|]. split; [split; assumption|].
   cbn [absI]. rewrite Ha. reflexivity.
 Qed.
 
-Lemma tcorr_filter : forall p, tcorr (fun it => IOk (IFilter p it)) (fun s => TOk (lfilter (ep p) s)).
+Lemma tcorr_filter : forall p h, tcorr h (fun it => IOk (IFilter p it)) (fun s => TOk (lfilter (ep p) s)).
 Proof.
   intros p h it l Hh [[Hw Hf] Ha]. rewrite lfilter_fin.
   eexists. split; [reflexivity|]. split; [split; assumption|].
@@ -228,4 +228,13 @@ Proof.
     rewrite <- (set_nth_same _ _ _ Es). apply (R_pres_set h h'); [exact HR|exact Hp|]. cbn. eexists. split; [reflexivity|].
     split; [reflexivity|]. constructor; [split; auto|].
     eapply Forall_impl; [|exact HFr]. intros x. apply Rit_pres. exact Hp.
+Qed.
+
+(* appending the iterator obtained from another object *)
+Lemma tcorr_append_obj : forall h itj lj, Rit h lj itj ->
+  tcorr h (fun it => IOk (IChain it itj)) (fun s => TOk (lappend s (fin lj))).
+Proof.
+  intros h itj lj [[Hwj Hfj] Haj] it l Hh [[Hw Hf] Ha]. rewrite lappend_fin.
+  eexists. split; [reflexivity|]. split; [split; cbn; auto|].
+  cbn [absI]. rewrite Ha, Haj. reflexivity.
 Qed.
